@@ -1,4 +1,6 @@
 import Sekai.Model.Stake
+import Sekai.Gen.App
+import Sekai.Model.App
 /-! # C05 — Validator updates keep consensus and application validator sets equal
 
 `Sync` is the inductive invariant relating statuses, the removing / reactivating queues and the consensus set.
@@ -241,5 +243,15 @@ theorem kpause_paused_counterexample : endErr 3 ([Op.kPause 0].foldl (apply pr) 
 /-- finding: the Pause guard counts all validator records, not the active ones: every validator can pause ⇒ empty set -/
 theorem all_pause_counterexample :
     endErr 3 ([Op.msgPause 0, .msgPause 1, .msgPause 2].foldl (apply pr) s3) = some .emptySet := by decide
+
+/-! ### Application wiring (table `Gen.App`) -/
+
+/-- the block structure of `Stake.block`: in BeginBlock signatures (slashing) are handled before evidence, both before
+staking; in EndBlock proposals are enacted (gov: unjail, rank reset, slash) before the staking module computes the
+validator-set updates of the block. -/
+theorem block_order_as_modelled :
+    Sekai.App.inOrder Sekai.Gen.App.beginOrder ["slashingtypes.ModuleName", "evidencetypes.ModuleName", "stakingtypes.ModuleName"] = true ∧
+    Sekai.App.inOrder Sekai.Gen.App.endOrder ["upgradetypes.ModuleName", "slashingtypes.ModuleName", "recoverytypes.ModuleName", "govtypes.ModuleName", "stakingtypes.ModuleName"] = true := by
+  decide +kernel
 
 end Sekai.Props.C05
